@@ -17,7 +17,7 @@ fn main() {
     // keep stderr quiet for the panics we provoke on purpose
     std::panic::set_hook(Box::new(|info| {
         let msg = info.to_string();
-        if msg.contains("HARNESS-ERROR") {
+        if msg.contains("HARNESS-ERROR") || std::env::var("ORXH_VERBOSE_PANIC").is_ok() {
             eprintln!("{}", msg);
         }
     }));
